@@ -49,7 +49,11 @@ impl Ty {
     }
 }
 
-pub const PREAMBLE: &str = "let array = import! std.array.prim\nlet string = import! std.string.prim\ntype Tree = | Leaf Int | Node Tree String Tree | Tip\n";
+/// Module `simtypes` which the harness loads into every VM before generated programs run (types
+/// are nominal per module, so that all programs share one `Tree`)
+pub const TYPES_MODULE: &str = "type Tree = | Leaf Int | Node Tree String Tree | Tip\n{ Tree }\n";
+
+pub const PREAMBLE: &str = "let array = import! std.array.prim\nlet string = import! std.string.prim\nlet { Tree } = import! simtypes\n";
 
 pub struct Gen<'r> {
     pub rng: &'r mut Rng,
